@@ -23,7 +23,8 @@ CONSTANTS Clients,     \* client / item identifiers
           MaxAdmin,    \* how many snapshots + compactions may be started
           MaxFlush,    \* how many explicit client Flush calls
           Barrier,     \* TRUE: Begin waits until no call is between journal and apply (a write barrier)
-          CloseWaits   \* TRUE: shutdown waits for a snapshot/compaction in progress
+          CloseWaits,  \* TRUE: shutdown waits for a snapshot/compaction in progress
+          SnapFails    \* TRUE: a snapshot may fail after Begin (temp file cannot be created): error-path cleanup
 
 VARIABLES
   cpc,      \* [Clients -> {"idle","sending","sent"}] : program counter of each client call
@@ -173,6 +174,18 @@ A_EndQ(kind, qq, rest) ==            \* EndSnapshotModeAndReappend (cmdEndSnapsh
   /\ apc' = "idle"
   /\ UNCHANGED <<cpc, cver, memv, acked, wclosed, wdead, ackpre, snap, img, pend, nadmin, nflush, dev>>
 
+\* SaveSnapshot fails after BeginSnapshotMode (its temp file cannot be created, DB.Snapshot fails): the deferred
+\* cleanup leaves snapshot mode with EndSnapshotModeAndReappend -- the writes diverted to the shadow buffer were
+\* acknowledged and go back into the (untouched) log
+A_FailQ(qq, rest) ==
+  /\ SnapFails /\ apc = "snap.begun"
+  /\ IF wclosed
+     THEN UNCHANGED <<q, shadow, mode, buf, file>>
+     ELSE /\ q' = rest /\ shadow' = <<>> /\ mode' = FALSE
+          /\ file' = file \o DrainedOf(qq).b \o DrainedOf(qq).s /\ buf' = <<>>
+  /\ apc' = "idle"
+  /\ UNCHANGED <<cpc, cver, memv, acked, wclosed, wdead, ackpre, snap, img, pend, nadmin, nflush, dev>>
+
 \* (kept for the older protocol: EndSnapshotMode handing the writes back to the engine, which re-appended
 \*  them one by one -- see known_findings.json FX-14; never enabled now because apc never ends in ".ended")
 A_Reappend(kind) ==
@@ -206,12 +219,13 @@ A_Begin(kind) == A_BeginQ(kind, q, <<>>)
 S_Truncate == S_TruncateQ(q, <<>>)
 R_Replace == R_ReplaceQ(q, <<>>)
 A_End(kind) == A_EndQ(kind, q, <<>>)
+A_Fail == A_FailQ(q, <<>>)
 W_Close == W_CloseQ(q, <<>>)
 
 Next ==
   \/ \E c \in Clients : C_Start(c) \/ C_Enqueue(c) \/ C_Apply(c)
   \/ W_Recv \/ W_Tick \/ W_Flush \/ W_Close \/ W_Dead
-  \/ A_Begin("snap") \/ A_Capture("snap") \/ S_Rename \/ S_Truncate \/ A_End("snap") \/ A_Reappend("snap")
+  \/ A_Begin("snap") \/ A_Capture("snap") \/ S_Rename \/ S_Truncate \/ A_End("snap") \/ A_Reappend("snap") \/ A_Fail
   \/ A_Begin("rw") \/ A_Capture("rw") \/ R_Replace \/ A_End("rw") \/ A_Reappend("rw")
 
 Spec == Init /\ [][Next]_vars
